@@ -346,6 +346,28 @@ func r043(c *an.Ctx) {
 				c.Unk(rule, name+"|event time is the stored time", s.Pos(), "event literal or stored change time not recognised")
 				continue
 			}
+			// (the event may take its time by reading the field back right after the save wrote it: that load yields
+			// the value of the store before it in the same block)
+			if srcs := an.Sources(ev); len(srcs) == 1 {
+				if ld, isLd := srcs[0].(*ssa.UnOp); isLd && ld.Op == token.MUL {
+					if _, _, fld, isF := an.FieldOf(ld.X); isF && fld == storedField {
+						var last ssa.Value
+						for _, in := range ld.Block().Instrs {
+							if in == ssa.Instruction(ld) {
+								break
+							}
+							if st, isSt := in.(*ssa.Store); isSt {
+								if _, _, f2, ok2 := an.FieldOf(st.Addr); ok2 && f2 == storedField {
+									last = st.Val
+								}
+							}
+						}
+						if last != nil {
+							ev = last
+						}
+					}
+				}
+			}
 			c.Check(sameSingleSource(ev, stored), rule, name+"|event time is the stored time", s.Pos(), "ChangeTime and the stored changeTime are one value",
 				"the event's ChangeTime is computed separately from the change time stored with the value (a second clock read): the event and a later seed of the same write report different instants")
 		}
